@@ -61,6 +61,12 @@ class Case:
         for h in history:
             if h and (not h2 or h2[-1] != h):
                 h2.append(h)
+        # a history bound smaller than the number of entries: the editor is given them all (its ring buffer rotates),
+        # the model the ones that survive
+        self.history_full = h2
+        mh = (meta or {}).get("max_hist")
+        if mh is not None:
+            h2 = h2[len(h2) - mh:] if mh and len(h2) > mh else ([] if mh == 0 else h2)
         self.mode, self.prompt, self.history, self.initial = mode, prompt, h2, initial
         self.cands, self.hints, self.validator = cands, hints, validator
         self.completion, self.timeout, self.cols, self.reads = completion, timeout, cols, reads
@@ -76,7 +82,7 @@ class Case:
     def spec(self):
         l = ["mode " + self.mode, "completion " + self.completion, "timeout " + str(self.timeout),
              "prompt " + self.s(self.prompt), "reads %d" % self.reads]
-        for h in self.history:
+        for h in self.history_full:
             l.append("history " + self.s(h))
         if self.initial:
             l.append("initial %s %s" % (self.s(self.initial[0]), self.s(self.initial[1])))
@@ -90,11 +96,12 @@ class Case:
             l.append("validator " + self.validator)
         if self.printer:
             l.append("printer 1")
-        for k in ("highlight", "signals", "paste", "helper_panic_at", "auto_add", "printers"):
+        for k in ("highlight", "signals", "paste", "helper_panic_at", "auto_add", "printers", "max_hist"):
             if k in self.meta:
                 l.append("%s %s" % (k, self.meta[k]))
         for ks, cmd in self.binds:
             l.append("bind %s %s" % (ks, cmd))
+        l += list(self.meta.get("spec_extra", []))
         return "\n".join(l) + "\n"
 
     def model_line(self, chunks):
@@ -186,10 +193,11 @@ def strip_w(reads):
 def _pty_job(job):
     exe, spec, ch, cols = job[:4]
     events = job[4] if len(job) > 4 else None
+    sync_keys = job[5] if len(job) > 5 else False
     last = None
     for attempt in range(2):
         try:
-            r = ptydrive.run_case(exe, spec, ch, cols=cols, events=events)
+            r = ptydrive.run_case(exe, spec, ch, cols=cols, events=events, sync_keys=sync_keys)
             r.pop("termios_probe", None)
             return r
         except OSError as e:      # infrastructure (fork / pty exhaustion): retry once
@@ -218,7 +226,7 @@ def run_tty_cases(res, exe, driver, cases, tmp, tag, compare_output=True, rng=No
                 lst = c.meta["bursts"][k]
                 total += len(lst)
                 ev[k] = list(ev.get(k, [])) + [("print_nowait", t, enc([ord(x) for x in text])) for (t, text) in lst] + [("wait_acks", total)]
-        jobs.append((exe, c.spec(), ch, c.cols, ev))
+        jobs.append((exe, c.spec(), ch, c.cols, ev, bool(c.meta.get("sync_keys"))))
     # processes, not threads: the driver polls /proc and must not share a GIL
     import multiprocessing
     ctx = multiprocessing.get_context("fork")
@@ -473,15 +481,21 @@ def c13_cases(tier, seed):
     ok valid+msg) and the shipped bracket validator; Enter / C-j / C-m anywhere in the line"""
     rng = random.Random(seed * 307 + 5)
     n = 4000 if tier == "thorough" else 260
-    frag = ["a", "b", " ", "!!", "??", "##", "\\", "ok", "(", ")", "[", "]", "{", "}", "é", "日", "x", "!", "?", "#"]
+    frag = ["a", "b", " ", "!!", "??", "##", "\\", "ok", "(", ")", "[", "]", "{", "}", "é", "日", "x", "!", "?", "#", "~~", "~"]
+    bad_hist = ["foo(bar", "foo)bar", "a!!b", "x??", "tail\\", "ok go", "y~~z", "plain", "[{"]
     cases = []
     for _ in range(n):
         mode = rng.choice(["emacs", "emacs", "vi"])
         vk = rng.choice(["script", "script", "brackets"])
+        hist = [rng.choice(bad_hist) for _ in range(rng.choice([0, 0, 2, 3]))]
         keys = []
         for _ in range(rng.randint(2, 14)):
             r = rng.random()
-            if r < 0.55:
+            if r < 0.10 and hist:
+                # Enter (or another key) typed INSIDE a history search / recall: the entry found is validated like any line
+                keys += rng.choice([["C-r"] + list(rng.choice(["f", "a", "o", "x", "b", "("])) + [rng.choice(["Enter", "C-j", "Enter", "Right"])],
+                                    [rng.choice(["Up", "C-p"])] * rng.randint(1, 2) + [rng.choice(["Enter", "End"])]])
+            elif r < 0.55:
                 keys += list(rng.choice(frag))
             elif r < 0.75:
                 keys.append(rng.choice(["Enter", "C-j", "C-m", "Enter"]))
@@ -496,7 +510,7 @@ def c13_cases(tier, seed):
             keys += list(rand_text(rng, 0, 4, ["a", "(", ")", "!"])) + ["Enter"]
         hints = ["ok then"] if rng.random() < 0.2 else None
         cases.append(Case(keys, mode=mode, validator=vk, reads=reads, hints=hints, initial=mk_initial(rng, 0.15, frag[:8]),
-                          timeout=0 if mode == "vi" else "none", prompt=rng.choice(["> ", ""]),
+                          history=hist, timeout=0 if mode == "vi" else "none", prompt=rng.choice(["> ", ""]),
                           cols=rng.choice([80, 80, 20])))
     return cases
 
@@ -547,6 +561,11 @@ def c08_cases(tier, seed):
     for _ in range(n):
         mode = rng.choice(["emacs", "emacs", "emacs", "vi"])
         hist = [rng.choice(pool) for _ in range(rng.choice([0, 1, 2, 3, 4, 6]))]
+        meta = {}
+        if rng.random() < 0.25:
+            # more entries than the history holds: the ring buffer has wrapped when the search walks it
+            meta["max_hist"] = rng.choice([2, 3, 4, 5])
+            hist = [rng.choice(pool) + rng.choice(["", "1", "2", "b"]) for _ in range(meta["max_hist"] + rng.randint(1, 6))]
         keys = list(rand_text(rng, 0, 3, ["a", "b", "q"]))
         for _ in range(rng.randint(1, 4)):
             keys.append(rng.choice(["C-r", "C-r", "C-s"]))
@@ -570,7 +589,7 @@ def c08_cases(tier, seed):
         keys.append("Enter")
         cases.append(Case(keys, mode=mode, history=hist, initial=mk_initial(rng, 0.3, ["a", "b", " ", "é"]),
                           timeout=0 if mode == "vi" else rng.choice(["none", 0]), prompt=rng.choice(["> ", ""]),
-                          cols=rng.choice([80, 80, 24])))
+                          cols=rng.choice([80, 80, 24]), meta=meta))
     return cases
 
 
